@@ -140,7 +140,9 @@ def run_case(case):
         open_socks = {nid: [repr(s) for s in p.world.open_sockets(nid)] for nid, _ in topo}
         stop_set = {k_: ev.is_set() for k_, ev in p.stops.items()}
         oob_sent = [(r[2], json_xtra(r[5])) for r in p.world.log if r[0] in ('pub', 'push', 'pushq') and is_oob(r)]
-        oob_dlv = [(r[2], r[4], json_xtra(r[6]), r[1]) for r in p.world.log if r[0] == 'oob_delivered']
+        # (sender id, reader, kind, t): an announcement counts once the neighbour has *read* it - a filter that is waiting for input only
+        # looks at its request sockets when it next sends, so an announcement from downstream may sit unread in a starving filter
+        oob_dlv = [(json_from(r[5]), r[2], json_xtra(r[5]), r[1]) for r in p.world.log if r[0] == 'oob_read']
         alive = {nid: p.live_actor(nid) is not None for nid, _ in topo}
         t_end = p.world.now
     finally:
@@ -232,6 +234,12 @@ def run_case(case):
         elif e is not None:
             return bad(f'{nid} (obey_exit={case["policies"].get(nid, case["policies"]["*"])[1]}) ended ({e["how"]} {e["exc"]}) although no exit it obeys was announced to it '
                        f'(exiting filter {x}: {announce}, prop_exit={(case["policies"].get(x) or case["policies"]["*"])[0]})', f'unexpected-exit:{announce}', classes)
+    if announce is not None:
+        bit = 1 if announce == 'clean' else 2
+        if all(pol(nid)[0] & bit and pol(nid)[1] & bit for nid, _ in topo) and state['process_before'] >= 1:
+            still = [nid for nid, _ in topo if (nid, 0) not in ends]
+            if still:
+                return bad(f'all filters propagate and obey {announce} exits, yet {still} are still running 3 s after {x} ended', f'pipeline-not-terminated:{announce}', classes)
     if len(expected) == len(topo):
         classes.append('whole pipeline terminated')
     classes.append(f'kind {kind}')
@@ -243,6 +251,18 @@ def is_oob(rec):
     msg = rec[5]
     part = msg[1] if rec[0] == 'pub' else msg[0]
     return b'"mid":-2' in part
+
+
+def json_from(msg):
+    import json
+    for part in msg[:2]:
+        try:
+            d = json.loads(part.decode())
+            if isinstance(d, dict) and ('sid' in d or 'cid' in d):
+                return d.get('sid') or d.get('cid')
+        except Exception:
+            continue
+    return None
 
 
 def json_xtra(msg):
